@@ -38,6 +38,7 @@ type World struct {
 func (W *World) contractError(cl *Clause, err error) {
 	msg := fmt.Sprintf("%s:%d: %v", cl.File, cl.Line, err)
 	errClauses[cl] = true
+	errClauseMsg[cl] = err.Error()
 	for _, e := range W.errors {
 		if e == msg {
 			return
